@@ -54,9 +54,29 @@ func (watcher *RequestWatcher) GetRequest(requestID string) (*Request, bool) {
 	return req, found
 }
 
-func (watcher *RequestWatcher) AddRequest(req *Request) {
-	watcher.requestCount.Add(1)
+// ReserveSlot takes one of maxSize queue slots: the size test and the increment of the counter
+// are one atomic step, so concurrent arrivals cannot all pass the test. It returns false when the
+// queue is full. The slot is given back by RemoveFromWatchList (or ReleaseSlot if the request is
+// never added).
+func (watcher *RequestWatcher) ReserveSlot(maxSize int64) bool {
+	for {
+		current := watcher.requestCount.Load()
+		if current >= maxSize {
+			return false
+		}
+		if watcher.requestCount.CompareAndSwap(current, current+1) {
+			return true
+		}
+	}
+}
 
+// ReleaseSlot gives back a slot taken by ReserveSlot for a request that was not added.
+func (watcher *RequestWatcher) ReleaseSlot() {
+	watcher.requestCount.Add(-1)
+}
+
+// AddRequest registers a request for which the caller holds a slot (see ReserveSlot).
+func (watcher *RequestWatcher) AddRequest(req *Request) {
 	watcher.requestsMapMutex.Lock()
 	watcher.requests[req.GetID()] = req
 	watcher.requestsMapMutex.Unlock()
